@@ -1933,7 +1933,7 @@ Lemma step_preserves s k o :
   inv s k -> wf_op o -> snd (step s o) <> OPanic ->
   exists k', check_step k o (snd (step s o)) = Some k' /\ inv (fst (step s o)) k'.
 Proof.
-  intros (I1 & I2 & I3) W NP. destruct o as [avail req nsamp first sepCards sepCols geom| |pk|devs|n|n|n|row col rows cols|base today i offs].
+  intros (I1 & I2 & I3) W NP. destruct o as [avail req nsamp first sepCards sepCols geom| |pk|devs|n|n|n|row col rows cols|base today i offs mapn].
   - (* LRun *)
     cbn [step] in *. destruct W as [WL WG].
     destruct (lancero_configure (s_l s) avail req nsamp first sepCards sepCols geom) as [l1 ok] eqn:C.
@@ -1955,7 +1955,7 @@ Proof.
     destruct (lancero_start l1) as [[l2 ob] r] eqn:ST. cbn [fst snd] in *.
     assert (LS' := LS (fun E => let '(conj a (conj b (conj c _))) := PRE E in conj a (conj b c))). clear LS.
     destruct LS' as ((E1 & E2) & NDr & OB).
-    destruct ob as [| sd mx sc | t mixed order nm gm | | | |]; try contradiction.
+    destruct ob as [| sd mx sc | t mixed order nm gm | | | | |]; try contradiction.
     + subst r. eexists. split; [reflexivity|].
       assert (E : l_cfgerr l1 = true).
       { unfold lancero_start in ST. destruct (l_cfgerr l1) eqn:E; [reflexivity|].
@@ -1978,7 +1978,7 @@ Proof.
     pose proof (lancero_start_step (s_l s) k None I2) as LS.
     destruct (lancero_start (s_l s)) as [[l2 ob] r] eqn:ST. cbn [fst snd] in *.
     destruct LS as ((E1 & E2) & NDr & OB).
-    destruct ob as [| sd mx sc | t mixed order nm gm | | | |]; try contradiction.
+    destruct ob as [| sd mx sc | t mixed order nm gm | | | | |]; try contradiction.
     + subst r. eexists. split; [reflexivity|].
       split; [reflexivity|]. split; [|intros ? ? X; discriminate X].
       cbn [s_l k_cards]. intro X. rewrite E1 in X. rewrite E2. now apply I2.
@@ -2040,6 +2040,8 @@ Proof.
     2:{ cbn [snd fst check_step]. exists k. split; [reflexivity | exact INV]. }
     destruct (zlen (t_names t) <=? 0).
     { cbn [snd fst check_step]. exists k. split; [reflexivity | exact INV]. }
+    destruct ((0 <=? mapn) && negb (mapn =? zlen (t_names t) / t_cpp t)).
+    { cbn [snd fst check_step]. exists k. split; [reflexivity | exact INV]. }
     destruct (files_of t src (make_directory base today i) offs) as [cf|] eqn:F.
     2:{ cbn [snd] in NP. contradiction. }
     cbn [snd fst check_step]. rewrite I1.
@@ -2066,8 +2068,8 @@ Proof.
 Qed.
 
 Definition ex_history : list op :=
-  [LRun [0;1;2;3] [3;0] 1 0 24 8 [(2,2);(1,2)]; Files "/data" "20260930" 0 [1;3;5];
-   APrep [(4,4);(4,0)]; Files "/data" "20260930" 1 []; TPrep 3; RcCode 5 1 40 8].
+  [LRun [0;1;2;3] [3;0] 1 0 24 8 [(2,2);(1,2)]; Files "/data" "20260930" 0 [1;3;5] 6;
+   APrep [(4,4);(4,0)]; Files "/data" "20260930" 1 [] (-1); Files "/data" "20260930" 2 [] 7; TPrep 3; RcCode 5 1 40 8].
 Example ex_history_wf :
   Forall wf_op ex_history /\ ~ In OPanic (run state0 ex_history) /\
   exists cf n, nth 1 (run state0 ex_history) OPanic = OFiles "/data/20260930/0000/20260930_run0000_%s.%s" cf n /\ n = 28.
